@@ -206,6 +206,7 @@ def parseX (l : Line) : Option XOp :=
   | "swap" => some .swap
   | "swap_self" => some .swapSelf
   | "use" => some .use
+  | "vassign_own" => some .assignOwn
   | _ => none
 
 def parseF (l : Line) : Option FOp :=
